@@ -94,6 +94,21 @@ CLAIMED = {
             "Pairs: the real Dialer.Upgrade against the real Upgrader.Upgrade over a net.Pipe re-chunked in both directions for subprotocol lists x selectors x extension offers (with parameters that need quoting) x {selector, wsflate.Extension.Negotiate, table negotiator} x extra headers x header lines of 0/40/400 bytes x buffer sizes {0,16,64,300,4096}: both succeed with equal protocol and extensions, or both fail. Independence: 5 fixed requests and 4 fixed responses each served under 12 chunkings x 5 read buffers x 2 write buffers: outcome, handshake data and bytes written identical (random key masked). Debug wrappers: callbacks get exactly the bytes exchanged, same outcome as the plain peer, no post-handshake byte lost (head length swept over 0..69 pad bytes against read buffers 16/32/64).",
             "A parameter value containing an embedded double quote is not round-tripped by the httphead dependency (outside this repository): not generated.",
             "7/C11"),
+    "C15": ("exploration",
+            "mutation scripts drawn from a TLA+ mutation model (Mutate.tla, TLC -simulate) + seeded scripts applied to valid seeds of every kind; outcome records (value | error | panic | hang, allocation, payload pulled) judged by TLC",
+            "Valid seeds (26 frame streams incl. a compressed frame, requests, responses whose Accept is filled in at serve time, option lists, deflate streams incl. a 1 MiB zero run) are mutated by 400 (thorough 6000) TLC-generated scripts and 1500 (thorough 60000) seeded ones and fed to 20 decoding entry points; every extreme announced length 2^31-1..2^63-1 x opcode x mask at every frame entry point, with bytes allocated during ReadHeader / Reader.NextFrame measured (<= 64 KiB + input) and MaxFrameSize refusals checked to have pulled 0 payload bytes. Calls run under recover with a read-call budget (no-progress loops), the driver under ulimit -v with a watchdog; a dying driver is attributed to the input it was processing and confirmed alone.",
+            "Exploration, not a proof of totality; monitors (panic, budget, MemStats) are Go-side.",
+            "7/C15"),
+    "C17": ("model_checking",
+            "TLA+ Pools model (results as copies vs aliases, recycling) checked by TLC with an aliasing planted bug + trace validation (TracePools) of results re-read after the real pools were recycled",
+            "Pools.tla: TLC shows ResultsStable for 2-3 sessions sharing 2 buffers under all interleavings when results are copies, and a violation when they alias (anti-vacuity). Real code (GOMAXPROCS=1, GC off): a handshake through each library-owned selection path (Upgrader Protocol/Extension/Negotiate, Accepted(), HTTPUpgrader Protocol/Extension/Negotiate, Dialer protocols and extension parameters), close reasons, ReadMessage/ReadData payloads over 5 size classes; after each, every size class of the pbufio/pbytes/writer pools is pulled, overwritten and returned and the operation repeated with different contents, for 3 (thorough 8) rounds, re-reading every earlier result; write side: 9 non-mutating write APIs x 9 payload sizes - caller slice bit-for-bit intact and destination bytes unaffected by reuse of the slice.",
+            "sync.Pool reuse is made likely (single P, no GC), not guaranteed; user-supplied selector paths (ProtocolCustom/ExtensionCustom) are outside the property.",
+            "7/C17"),
+    "C19": ("model_checking",
+            "TLA+ Pools model (NonInterference under all interleavings, early-Put planted bug) + stress of N concurrent real sessions compared with their solo behaviour + Go race detector",
+            "Pools.tla: with Put deferred to the end of an operation every session derives what it would alone, for all interleavings of 2-3 sessions (TLC); an early Put violates it (anti-vacuity). Real code: N in {2,8,64} concurrent sessions x GOMAXPROCS {1,2,16} (x6 rounds in thorough), each a full connection over its own buffered duplex (handshake through DefaultDialer/ws.Upgrade or configured peers with subprotocols and permessage-deflate, messages 0..70000 bytes fragmented by small writers, pings, pooled GetWriter/PutWriter echo, close handshake) with seeded Gosched/short-read jitter: the ordered observations of every session equal those of the same session run alone; the same driver built with -race must report no data race.",
+            "The Go scheduler is not controllable: schedules are sampled, not enumerated.",
+            "7/C19"),
 }
 
 PENDING_REASON = "check not built yet in this round (work in progress; planned in DESIGN.md section 7)"
